@@ -25,8 +25,10 @@ impl TopNExecutor {
         // initialize heap
         let heap_size = self.offset + self.limit;
         let orders = Evaluator::new(&self.order_keys).orders();
-        let mut heap =
-            BinaryHeap::with_capacity_by(heap_size, |row1, row2| cmp(row1, row2, &orders));
+        // `limit` is huge when the query has an OFFSET but no LIMIT: do not preallocate for it.
+        let mut heap = BinaryHeap::with_capacity_by(heap_size.min(PROCESSING_WINDOW_SIZE), |row1, row2| {
+            cmp(row1, row2, &orders)
+        });
 
         // evaluate order keys and append the original rows
         // chunks = keys || child
